@@ -319,7 +319,8 @@ class StarSet(object):
         :param threshold: threshold for determining equality with symmetry
         :param originstates: include origin states in generate?
         """
-        if Nshells == getattr(self, 'Nshells', -1): return
+        if Nshells == getattr(self, 'Nshells', -1) and \
+                originstates == any(s.iszero() for s in getattr(self, 'states', [])): return
         self.Nshells = Nshells
         if Nshells > 0:
             stateset = set(self.jumplist)
